@@ -338,6 +338,10 @@ class MinGenSet():
                     "solve_time": time.perf_counter() - start_time,
                     "status": self.solver.get_model_status(),
                 }
+                if self.solver.get_model_status() != sw.SolverWrapper.infeasible_status:
+                    # The solver stopped without proving infeasibility for this k (e.g. time limit),
+                    # so we cannot skip k and return a larger, possibly non-minimal, generating set.
+                    return False
         return False
 
     def is_solved(self):
